@@ -390,6 +390,7 @@ func (e *env) call(c nfsx.Cred, r *nfsx.Req) *nfsx.Obs {
 // ---------------------------------------------------------------------------------------------------------
 
 type opRec struct {
+	done      bool // the response has arrived (false: still running when the case was rendered)
 	cli       int
 	inv, resp int64
 	cred      nfsx.Cred
@@ -420,6 +421,7 @@ type runCtx struct {
 	names  map[string]bool    // every name used
 	hist   []histState        // stream C29b: backend states after every successful mutating backend call
 	panics atomic.Int64
+	dead   atomic.Bool // the watchdog fired: the server is not to be touched any more
 }
 
 func join(d, n string) string {
@@ -436,12 +438,24 @@ func (rc *runCtx) learn(h uint64, p string) {
 
 // do stamps, executes and records one request.
 func (rc *runCtx) do(cli int, c nfsx.Cred, r *nfsx.Req, keep []string, hasKeep bool) *nfsx.Obs {
-	inv := rc.clock.Add(1)
+	if rc.dead.Load() {
+		return &nfsx.Obs{RPC: 9998}
+	}
+	// recorded at invocation, completed at the response: a request that never answers stays in the history
+	rec := &opRec{cli: cli, cred: c, req: r, obs: &nfsx.Obs{RPC: 9998}, keep: keep, hasKeep: hasKeep}
+	rc.mu.Lock()
+	rec.inv = rc.clock.Add(1)
+	rec.resp = noAnswer
+	rc.ops = append(rc.ops, rec)
+	rc.mu.Unlock()
 	o := rc.e.call(c, r)
 	resp := rc.clock.Add(1)
 	rc.mu.Lock()
 	defer rc.mu.Unlock()
-	rc.ops = append(rc.ops, &opRec{cli: cli, inv: inv, resp: resp, cred: c, req: r, obs: o, keep: keep, hasKeep: hasKeep})
+	if rc.dead.Load() {
+		return o // answered after the case was closed: the history keeps it as unanswered
+	}
+	rec.resp, rec.obs, rec.done = resp, o, true
 	if d, ok := rc.h2p[r.H]; ok && r.Name != nil && r.Proc != "MNT" {
 		rc.names[d+"\x00"+string(r.Name)] = true
 	}
@@ -534,6 +548,9 @@ func (c *client) dir(i int) int {
 
 // exec turns an abstract action into a concrete request using the handles the client has learnt so far.
 func (c *client) exec(a act) {
+	if c.rc.dead.Load() {
+		return
+	}
 	c.sc.wait(a.waitBefore)
 	defer c.sc.signal(a.signalAfter)
 	d := c.dir(a.dir)
@@ -679,12 +696,57 @@ type runResult struct {
 
 const watchdog = 20 * time.Second
 
+// noAnswer is the response stamp of a request that had not answered when its case was closed.
+const noAnswer = int64(1) << 40
+
+// A deadlocked server is never touched again (no probe round, no Close: its goroutines are leaked) and the next case
+// gets a fresh server.  Once a deadlock has been seen the random cases get a short watchdog, after three the
+// generators only emit empty place-holder cases, and so they do when the driver has run for too long: a deadlocking
+// tree is reported within a minute or two, and the driver always ends well before ./check would kill it.
+var (
+	deadlocksSeen atomic.Int32
+	driverStart   = time.Now()
+)
+
+// directed schedules park goroutines on purpose (bounded waits of their own): they always get the full watchdog
+func watchdogFor(sc *script) time.Duration {
+	if sc == nil && deadlocksSeen.Load() > 0 {
+		return 3 * time.Second
+	}
+	return watchdog
+}
+
+// skipCase: the reason why no further history is run ("" = go on)
+func skipCase(tier string) string {
+	limit := 6 * time.Minute
+	if tier == "thorough" {
+		limit = 40 * time.Minute
+	}
+	switch {
+	case deadlocksSeen.Load() >= 3:
+		return "skipped: three deadlocked histories already recorded"
+	case time.Since(driverStart) > limit:
+		return "skipped: the driver's overall deadline has passed"
+	}
+	return ""
+}
+
+// stubCase is the empty history (trivially accepted by Corr/C29.v)
+func stubCase(mode int, c cfg29, why string, idx int) Case {
+	coq := fmt.Sprintf("{| k_mode := %d; k_cfg := %s; k_init := []; k_paths := []; k_ops := []; k_final := []; k_hist := []; k_probe := []; k_table := []; k_issued := []; k_acsize := 0; k_dcsize := 0; k_gor0 := 0; k_gor1 := 0; k_deadlock := false; k_panic := false; k_race := false |}", mode, c.coq())
+	return Case{Index: idx, Kind: why, Coq: coq, Tags: map[string]int{"skipped": 1}, Key: fmt.Sprintf("%s %d", why, idx), Text: why}
+}
+
 func execute(c cfg29, schedSeed uint64, populate func(fs *specfs.FS), setup func(rc *runCtx) []*client, programs [][]act, trackHist bool, sc *script) *runResult {
 	n := &noise{r: NewRand(schedSeed, 77), readWindow: c.ReadWindow}
 	e := newEnv(c, n, sc, populate)
-	defer e.NFS.Close()
 	rc := &runCtx{e: e, h2p: map[uint64]string{}, issued: map[[2]string]bool{}, names: map[string]bool{}}
 	res := &runResult{rc: rc, init: e.FS.Dump(false), n: n}
+	defer func() {
+		if !res.deadlock {
+			e.NFS.Close()
+		}
+	}()
 	var muts atomic.Int64
 	if trackHist {
 		rc.hist = append(rc.hist, histState{0, viewsOf(res.init)})
@@ -728,14 +790,16 @@ func execute(c cfg29, schedSeed uint64, populate func(fs *specfs.FS), setup func
 	go func() { wg.Wait(); close(done) }()
 	select {
 	case <-done:
-	case <-time.After(watchdog):
+	case <-time.After(watchdogFor(sc)):
 		res.deadlock = true
+		rc.dead.Store(true)
+		deadlocksSeen.Add(1)
 	}
 	n.on.Store(false)
 	res.mutations = int(muts.Load())
 	if res.deadlock {
 		buf := make([]byte, 1<<16)
-		fmt.Fprintf(os.Stderr, "drive_c29: watchdog: requests still running after %v\n%s\n", watchdog, buf[:runtime.Stack(buf, true)])
+		fmt.Fprintf(os.Stderr, "drive_c29: watchdog: requests still running after %v\n%s\n", watchdogFor(sc), buf[:runtime.Stack(buf, true)])
 		res.final = res.init
 		return res
 	}
@@ -898,6 +962,19 @@ const bogusBase = 1000000
 
 func (res *runResult) toCase(mode int, c cfg29, kind string, idx int, tags map[string]int) Case {
 	rc := res.rc
+	rc.mu.Lock()
+	opsCopy := make([]*opRec, len(rc.ops))
+	for i, op := range rc.ops {
+		cp := *op
+		opsCopy[i] = &cp
+	}
+	h2p := map[uint64]string{}
+	for k, v := range rc.h2p {
+		h2p[k] = v
+	}
+	rc.mu.Unlock()
+	rc = &runCtx{ops: opsCopy, h2p: h2p, issued: rc.issued, names: rc.names, hist: rc.hist}
+	rc.panics.Store(res.rc.panics.Load())
 	sort.SliceStable(rc.ops, func(i, j int) bool { return rc.ops[i].inv < rc.ops[j].inv })
 	// path table
 	pidx := map[string]int{}
@@ -935,7 +1012,12 @@ func (res *runResult) toCase(mode int, c cfg29, kind string, idx int, tags map[s
 		}
 		ops = append(ops, fmt.Sprintf("{| p_id := %d; p_cli := %d; p_inv := %d; p_resp := %d; p_cred := %s; p_req := %s; p_obs := %s; p_keep := %s |}",
 			i, op.cli, op.inv, op.resp, nfsx.CoqCred(op.cred), r.Coq(), o.Coq(), keep))
-		txt = append(txt, fmt.Sprintf("%2d c%d [%d,%d] %s => %s", i, op.cli, op.inv, op.resp, op.req.Text(), op.obs.Text()))
+		if op.done {
+			txt = append(txt, fmt.Sprintf("%2d c%d [%d,%d] %s => %s", i, op.cli, op.inv, op.resp, op.req.Text(), op.obs.Text()))
+		} else {
+			txt = append(txt, fmt.Sprintf("%2d c%d [%d,-] %s => NO ANSWER", i, op.cli, op.inv, op.req.Text()))
+			tags["unanswered"]++
+		}
 		tags["op:"+op.req.Proc]++
 		tags[fmt.Sprintf("status:%d", op.obs.Status)]++
 		if op.obs.RPC != 0 {
@@ -1040,6 +1122,9 @@ func globalSeed() uint64 {
 }
 
 func genDistinct(r0 *Rand, idx int, tier string) Case {
+	if why := skipCase(tier); why != "" {
+		return stubCase(0, cfg29{AttrTTL: 1, NegTTL: 1, DirTTL: 1}, why, idx)
+	}
 	hist := uint64(idx / schedulesPerHistory)
 	r := NewRand(globalSeed()^0xC29A, hist) // the history
 	c := cfg29{AttrTTL: 1, NegTTL: 1, DirTTL: 1}
@@ -1142,6 +1227,9 @@ func genDistinct(r0 *Rand, idx int, tier string) Case {
 // ---------------------------------------------------------------------------------------------------------
 
 func genCached(r0 *Rand, idx int, tier string) Case {
+	if why := skipCase(tier); why != "" {
+		return stubCase(1, cfg29{AttrTTL: 1, NegTTL: 1, DirTTL: 1}, why, idx)
+	}
 	hist := uint64(idx / schedulesPerHistory)
 	r := NewRand(globalSeed()^0xC29B, hist)
 	long := 10 * time.Minute
